@@ -470,6 +470,23 @@ class Interp:
             # what an opaque library FUNCTION returned (os.path.exists(p), d.get(k)): nothing is known about its truth
             # (a Capitalised name is a constructor: an object, truthy)
             return self.free("truth(%s)" % (text or v[1]))
+        if k == "obj" and v[1].cls is not None:
+            # an object whose class says when it is true: __bool__ (__nonzero__), else __len__
+            for mname in ("__bool__", "__nonzero__", "__len__"):
+                kk_, m_ = self.repo.find_method(v[1].cls, mname)
+                if m_ is None:
+                    # `__nonzero__ = __bool__` in the class body
+                    for kx in self.repo.mro(v[1].cls):
+                        ce_ = kx.consts.get(mname)
+                        if isinstance(ce_, ast.Name) and ce_.id in kx.methods:
+                            kk_, m_ = kx, kx.methods[ce_.id]
+                            break
+                if m_ is not None:
+                    r_ = self.force(self.call_function(m_, kk_, v, [], {}, depth=1))
+                    if r_[0] == "c":
+                        return bool(r_[1])
+                    return self.truth(r_, text) if mname != "__len__" else self.free("nonempty(%s)" % text)
+            return True
         if k in ("other", "node", "obj", "cls", "closure", "bound", "ext", "clsmethod"):
             return True
         if k == "list":
